@@ -7,6 +7,10 @@ the extracted model Mlk (coq/Model/Lk.v).
   run_schedules(...)    harness/sched in child processes (a hang / fatal error is recorded against the running schedule)
   check_observed(...)   lkdriver check: first differing item per schedule + ghost facts (LaGiveBack = F-LIN2 signature)
   oracle_C01/02/03/13   the properties' own oracles, written from the property texts, evaluated on the REAL traces
+  gen_exhibits(...)     EXHIBIT schedules: a schedule of the comparison run with asynchronous items (context end of that thread,
+                        GC pass, tick) put where a thread went through a WINDOW yield point (W labels: a call has just returned,
+                        only thread-local work follows until the next model step); run with the windows parking; oracle on the
+                        real trace, and the model (it has the same items there) is compared as well
   run_property(ctx, prop, scenarios=None, tier=None)
 
     python3 -m lib.schedtie [--tier quick|thorough] [--prop C02] [--seed N] [--scenario id,...] [--replay file.json]
@@ -14,6 +18,7 @@ the extracted model Mlk (coq/Model/Lk.v).
 """
 import json
 import os
+import random
 import shutil
 import subprocess
 import sys
@@ -29,7 +34,10 @@ SCENARIO_FILE = VERIF / "harness" / "sched" / "scenarios" / "lk.json"
 MODEL_LABELS = ["PEnter", "PGet", "PChkDel", "PTryAcq", "PAcqEnter", "PAcqWoken", "PAcqCancel", "PRelCancel", "PAddKey",
                 "PUnlChk", "PUnlRem", "PDone"]
 # labels at which a request has looked its lock object up (getLock returned it) and has not yet called done()
-USING = {"PChkDel", "PTryAcq", "PAcqEnter", "PAcqWoken", "PAcqCancel", "PRelCancel", "PAddKey", "PUnlChk", "PUnlRem", "PDone"}
+USING = {"PChkDel", "PTryAcq", "PAcqEnter", "PAcqWoken", "PAcqCancel", "PRelCancel", "PAddKey", "PUnlChk", "PUnlRem", "PDone",
+         "WGetRet", "WAcqRet", "WTryAcqRet", "XUnlRelease"}
+GC_ITEMS = ("gcpass", "gcstart", "gcrun")
+GC_TID0 = 90     # thread ids of the GC passes started by "gcstart" items (harness/sched/exec.go)
 # what each property reads of a model/implementation difference (DESIGN 4.6)
 # difference kinds of `lkdriver check`: label (parked at another yield point), blocked (blocked in Acquire on one side only), bit, err,
 # table, crash; plus hang / fatal of the harness. A difference in labels alone is recorded in the coverage, it raises no alarm.
@@ -40,7 +48,12 @@ PROJ = {"C01": {"bit", "table", "crash", "hang", "fatal"}, "C02": {"bit", "table
 T2_ASSUMPTIONS = [
     "T2: yield points sit immediately before the critical sections named in Model/Lk.v; code between two yield points touches shared state "
     "only under the mutex / atomic of that section (data-race freedom => every real execution is an interleaving of these sections)",
-    "T2: ONE shard; a whole lockGc pass runs while every request goroutine is parked and stands for IGc of every mapped name",
+    "T2: a lockGc pass runs in a goroutine of its own with a yield point before every shard.Lock()/RLock(): one 'gcrun' item = the "
+    "critical section of ONE shard = IGc of every mapped name of that shard (FNV-1 32 of the name mod the shard count); the other "
+    "threads' steps interleave between the shards; scenarios with 1, 2 and 16 shards",
+    "T2 exhibit runs: at a window yield point (after sw.Acquire / sw.TryAcquire / getLock returned) the thread does only thread-local "
+    "work until its next model step, so an asynchronous item put there is the same model item one step earlier or later; the "
+    "exhibit runs put context ends, GC passes and ticks there and judge the REAL trace",
     "T2: the manager's own GC ticker never fires (interval 10^6 h); GC passes, ticks, context ends and shutdown are schedule items",
     "T2: shutdown's final lockGc(0) collects nothing on a clock that did not advance since the last access; the model's final pass "
     "(min-idle -1) assumes it did: the harness advances the fake clock by 1 ns before calling the closer",
@@ -119,6 +132,8 @@ def scenario_text(sc, tier, bound=None, sample=None):
     q = 0 if tier == "quick" else 1
     L = ["scenario %s" % sc["id"], "minidle %d" % sc.get("minidle", 0),
          "bound %d" % (bound if bound is not None else sc.get("bound", [2, 3])[q])]
+    if int(sc.get("shards", 1)) != 1:
+        L.append("shards %d" % int(sc["shards"]))
     for t, op, name, key, size in sc.get("setup", []):
         L.append("setup %d %s %s %s %d" % (t, op, hx(name), hx(key), size))
     for t, op, name, key, size, deps in sc.get("calls", []):
@@ -178,7 +193,7 @@ def corpus_schedules():
 
 def corpus_text(c):
     """A corpus / replay entry in the schedule file format."""
-    L = ["S %s" % c["id"], "C %d" % int(c.get("minidle", 0))]
+    L = ["S %s" % c["id"], "C %d" % int(c.get("minidle", 0)), "H %d" % int(c.get("shards", 1))]
     for k, it in enumerate(c.get("items", [])):
         f = it.split()
         if f[0] == "call" and len(f) >= 6 and not c.get("hex"):
@@ -293,6 +308,9 @@ class Run:
     def __init__(self, sid):
         self.sid = sid
         self.minidle = 0
+        self.shards = 1
+        self.passages = []   # (k, tid, window label): thread tid went through a transparent window yield point during item k
+        self.exhibit = None  # exhibit runs: dict(base, label, kind, at)
         self.items = []      # (k, [tokens])
         self.blocks = []     # (k, {tid: status tuple}, {name: (size, [keys])}, crashed)
         self.notes = []
@@ -327,6 +345,10 @@ def parse_observed(path):
         try:
             if f[0] == "C":
                 cur.minidle = int(f[1])
+            elif f[0] == "H":
+                cur.shards = int(f[1])
+            elif f[0] == "Y":
+                cur.passages.append((int(f[1]), int(f[2]), f[3]))
             elif f[0] == "I":
                 cur.items.append((int(f[1]), f[2:]))
                 blk = None
@@ -428,6 +450,10 @@ def history(run):
 
 def run_has(run, kind):
     return any(f[0] == kind for _, f in run.items)
+
+
+def run_has_gc(run):
+    return any(f[0] in GC_ITEMS for _, f in run.items)
 
 
 # ------------------------------------------------------------------------------------------------------- C01 oracle
@@ -574,7 +600,7 @@ def oracle_C02(run, hist=None):
     """Linearizability to the counting lock + conservation. -> [(index, text, flin2_shape)]"""
     hist = hist or history(run)
     bad = []
-    gc_allowed = run_has(run, "gcpass") or run_has(run, "shutdown")
+    gc_allowed = run_has_gc(run) or run_has(run, "shutdown")
     shutdown = run_has(run, "shutdown")
     crashed = any(b[3][0] for b in run.blocks) or any(k == "panic" for _, k, _ in run.epi)
     if not crashed:
@@ -712,7 +738,7 @@ def oracle_C13(run, hist=None):
     kinds = {k: f[0] for k, f in run.items}
     prev = None
     for k, thr, tab, _cr in run.blocks:
-        if prev is not None and kinds.get(k) in ("gcpass", "shutdown"):
+        if prev is not None and kinds.get(k) in ("gcpass", "gcrun", "shutdown"):
             pthr, ptab = prev
             for name, (size, keys) in ptab.items():
                 if name in tab:
@@ -723,7 +749,7 @@ def oracle_C13(run, hist=None):
                 if users:
                     bad.append((k, "the GC pass at step %d removed %r while %s" % (k, name, ", ".join("t%d is %s" % (t, " ".join(pthr[t])) for t in users))))
         prev = (thr, tab)
-    if run_has(run, "gcpass"):
+    if run_has_gc(run):
         unl_inv = {}
         for o in hist:
             if o.kind == "unl" and o.res is not None:
@@ -739,6 +765,96 @@ def oracle_C13(run, hist=None):
 ORACLES = {"C01": oracle_C01, "C02": oracle_C02, "C03": oracle_C03, "C13": oracle_C13}
 
 
+# ------------------------------------------------------------------------------------------------------ exhibit runs
+
+EXHIBIT_BUDGET = {"quick": 320, "thorough": 4000}
+CAUSES = ("context.Canceled", "server.ErrLockWaitTimeout")
+
+
+def gen_exhibits(runs, rng, budget):
+    """Exhibit schedules from the runs of the comparison stage (their echoed items + the window yield points each thread went
+    through). One exhibit = the base schedule with asynchronous items inserted right after the item during which thread t
+    passed window W, followed by `resume t`:   cancel t <cause> (Lock calls whose context has not ended yet) | gcpass |
+    tick 1, gcpass | tick 1.   Stratified by (window label, kind), drawn with `rng`.
+    Runs whose GC pass was still parked when the schedule ended (the harness appended `gcrun` items: the pass has more lock
+    sections than the model's) give variants with those extra items moved to earlier positions.
+    -> ([dict(id, base, minidle, shards, items=[token lists], label, kind, at)], stats)"""
+    groups = {}
+    passages = {}
+    overrun = []
+    for sid in sorted(runs):
+        run = runs[sid]
+        ndrain = sum(1 for _k, t in run.notes if t.startswith("drain:"))
+        if ndrain and run.complete:
+            overrun.append((sid, ndrain))
+        if not run.passages:
+            continue
+        pos = {k: i for i, (k, _f) in enumerate(run.items)}
+        calls = {int(f[1]): f for _k, f in run.items if f[0] == "call"}
+        for n_, (k, tid, label) in enumerate(run.passages):
+            passages[label] = passages.get(label, 0) + 1
+            at = pos.get(k)
+            if at is None:
+                continue
+            kinds = []
+            op = calls.get(tid)
+            if op is not None and op[2] == "lock" and not any(f[0] == "cancel" and int(f[1]) == tid for _k, f in run.items[:at + 1]):
+                later = [f[2] for _k, f in run.items[at + 1:] if f[0] == "cancel" and int(f[1]) == tid]
+                kinds.append(("cancel", [["cancel", str(tid), later[0] if later else CAUSES[(n_ + k) % 2]]]))
+            kinds += [("gc", [["gcpass"]]), ("tick+gc", [["tick", "1"], ["gcpass"]]), ("tick", [["tick", "1"]])]
+            for kind, ins in kinds:
+                groups.setdefault((label, kind), []).append((sid, at, tid, ins))
+    weight = {"cancel": 4, "gc": 2, "tick+gc": 2, "tick": 1}
+    keys = sorted(groups)
+    tot = sum(weight[k[1]] for k in keys) or 1
+    chosen = []
+    for key in keys:
+        cands = groups[key]
+        rng.shuffle(cands)
+        quota = max(4, (budget * weight[key[1]]) // tot)
+        for c in cands[:quota]:
+            chosen.append((key, c))
+    out = []
+    stats = {"window_passages_seen": passages, "candidates": sum(len(v) for v in groups.values()), "inserted": {}}
+    for n_, ((label, kind), (sid, at, tid, ins)) in enumerate(chosen):
+        run = runs[sid]
+        items = [list(f) for _k, f in run.items]
+        items = items[:at + 1] + [list(i) for i in ins] + [["resume", str(tid)]] + items[at + 1:]
+        out.append(dict(id="%s~%d" % (sid, n_), base=sid, minidle=run.minidle, shards=run.shards, items=items, label=label, kind=kind, at=at + 1))
+        stats["inserted"]["%s/%s" % (label, kind)] = stats["inserted"].get("%s/%s" % (label, kind), 0) + 1
+    # GC passes with more lock sections than the model's: the extra gcrun items anywhere after the model's last one
+    nvar = 0
+    rng.shuffle(overrun)
+    for sid, ndrain in overrun[:max(8, budget // 4)]:
+        run = runs[sid]
+        items = [list(f) for _k, f in run.items]
+        body, extra = items[:len(items) - ndrain], items[len(items) - ndrain:]
+        gcpos = [i for i, f in enumerate(body) if f[0] == "gcrun"]
+        lo = (gcpos[-1] + 1) if gcpos else 0
+        for v in range(3):
+            cut = sorted(rng.randint(lo, len(body)) for _ in extra)
+            new, prev = [], 0
+            for c, e_ in zip(cut, extra):
+                new += body[prev:c] + [e_]
+                prev = c
+            new += body[prev:]
+            if new == items:
+                continue
+            out.append(dict(id="%s~g%d" % (sid, nvar), base=sid, minidle=run.minidle, shards=run.shards, items=new, label="GcShard", kind="gc-overrun", at=cut[0]))
+            nvar += 1
+    stats["gc_overrun_base_schedules"] = len(overrun)
+    stats["gc_overrun_variants"] = nvar
+    return out, stats
+
+
+def exhibit_text(x):
+    L = ["S %s" % x["id"], "C %d" % x["minidle"], "H %d" % x["shards"]]
+    for k, f in enumerate(x["items"]):
+        L.append("I %d %s" % (k, " ".join(f)))
+    L.append("Z")
+    return "\n".join(L) + "\n"
+
+
 # --------------------------------------------------------------------------------------------------- run_property
 
 def _replay_obj(prop, run, why, chk, extra=None):
@@ -748,7 +864,8 @@ def _replay_obj(prop, run, why, chk, extra=None):
         if g[0] == "call":
             g[3], g[4] = unhx(g[3]), unhx(g[4])
         items.append(" ".join(g))
-    obj = {"kind": "t2-schedule", "property": prop, "id": run.sid, "minidle": run.minidle, "items": items, "why": why,
+    obj = {"kind": "t2-schedule", "property": prop, "id": run.sid, "minidle": run.minidle, "shards": run.shards,
+           "exhibit": bool(run.exhibit), "exhibit_of": run.exhibit, "items": items, "why": why,
            "observed": run.raw[:400], "model_vs_real": (chk or {}).get("diffs", [])[:10], "ghost": (chk or {}).get("ghost", [])[:60],
            "replay_cmd": "python3 -m lib.schedtie --replay <this file> --prop %s" % prop}
     if extra:
@@ -835,26 +952,57 @@ def run_property(ctx, prop, scenarios=None, tier=None, procs=8):
     sf, gstats, glog = gen_schedules(ctx, b, scs, tier, ctx.seed, name="gen-%s" % prop)
     if glog:
         ctx.note("T2: " + glog)
-    # sentinels placed (the code's shape deviates): compare at the model's granularity with the sentinels transparent, and run
-    # everything a second time with the sentinels parking so that the windows they open are shown to the oracle
+    # comparison run: window yield points (W) and shape sentinels (X) transparent; compared with the model after every item
     e = execute(ctx, b, sf, "run-%s" % prop, procs=procs, timeout=300 if tier == "quick" else 3000, xpark=False)
     runs.update(e["runs"]); chk.update(e["chk"]); failures += e["failures"]
     for k, v in e["reached"].items():
         reached[k] = reached.get(k, 0) + v
+    n_compare = len(runs)
     j = judge(prop, runs, chk, failures)
-    xruns, xchk = {}, {}
+    # exhibit runs: asynchronous items at the window yield points the comparison run went through (windows parking)
+    tx = time.time()
+    rng = random.Random("%s/%s/exhibit" % (int(ctx.seed), prop))
+    xl, xstats = gen_exhibits(runs, rng, EXHIBIT_BUDGET.get(tier, 320))
+    xruns, xchk, xfail = {}, {}, []
+    if xl:
+        xf = b["work"] / ("exhibit-%s.txt" % prop)
+        xf.write_text("".join(exhibit_text(x) for x in xl))
+        e2 = execute(ctx, b, xf, "xrun-%s" % prop, procs=procs, timeout=300 if tier == "quick" else 3000, xpark=True)
+        xruns, xchk, xfail = e2["runs"], e2["chk"], e2["failures"]
+        meta = {x["id"]: x for x in xl}
+        for sid, r in xruns.items():
+            m_ = meta.get(sid, {})
+            r.exhibit = {"base": m_.get("base"), "window": m_.get("label"), "inserted": m_.get("kind"), "after_item": m_.get("at")}
+        for k, v in e2["reached"].items():
+            reached[k] = reached.get(k, 0) + v
+    # shape sentinels placed (the code's shape deviates): everything a second time with the sentinels parking (oracle only)
     if ins["sentinels"]:
         files = [sf] + ([b["work"] / ("corpus-%s.txt" % prop)] if corpus else [])
         for n_, f_ in enumerate(files):
-            e2 = execute(ctx, b, f_, "xrun-%s-%d" % (prop, n_), procs=procs, timeout=300 if tier == "quick" else 3000, xpark=True)
-            xruns.update({"x:" + k: v for k, v in e2["runs"].items()})
-            xchk.update({"x:" + k: v for k, v in e2["chk"].items()})
-        for sid, r in xruns.items():
-            r.sid = sid
-        j2 = judge(prop, xruns, xchk, [], compare=False)
-        j["violations"] += j2["violations"]
-        j["known"] += j2["known"]
-        runs.update(xruns); chk.update(xchk)
+            e3 = execute(ctx, b, f_, "srun-%s-%d" % (prop, n_), procs=procs, timeout=300 if tier == "quick" else 3000, xpark=True)
+            for k, v in e3["runs"].items():
+                v.sid = "x:" + k
+                v.exhibit = {"base": k, "window": None, "inserted": "shape sentinels parking", "after_item": None}
+                xruns["x:" + k] = v
+            xchk.update({"x:" + k: v for k, v in e3["chk"].items()})
+    j2 = judge(prop, {k: v for k, v in xruns.items() if not k.startswith("x:")}, xchk, xfail)
+    j3 = judge(prop, {k: v for k, v in xruns.items() if k.startswith("x:")}, xchk, [], compare=False)
+    j["violations"] += j2["violations"] + j3["violations"]
+    j["known"] += j2["known"] + j3["known"]
+    x_mism = j2["mismatches"]
+    j["mismatches"] += x_mism
+    runs.update(xruns); chk.update(xchk); failures += xfail
+    tie["exhibit"] = {
+        "runs": len(xruns), "window_yield_points_placed": ins.get("windows", []), "gc_yield_points_placed": ins.get("multi", {}),
+        "window_passages_seen_in_comparison_runs": xstats["window_passages_seen"], "insertion_candidates": xstats["candidates"],
+        "inserted_by_window_and_kind": xstats["inserted"], "gc_overrun_base_schedules": xstats["gc_overrun_base_schedules"],
+        "gc_overrun_variants": xstats["gc_overrun_variants"],
+        "schedules_failing_oracle": len(set(v[0] for v in j2["violations"] + j3["violations"])),
+        "known_finding_reproductions": len(j2["known"] + j3["known"]), "mismatches_in_projection": len(x_mism),
+        "schedules_differing_in_labels_only": j2["label_only"], "hangs_or_fatal": len(xfail),
+        "incomplete_schedules": sum(1 for r in xruns.values() if not r.complete), "wall_s": round(time.time() - tx, 1),
+        "rule": "base schedule (echoed items of a comparison run) + [cancel t cause | gcpass | tick 1, gcpass | tick 1] + resume t right after the "
+                "item during which thread t went through the window; stratified by (window, kind), PRNG seeded by ctx.seed"}
 
     reported = 0
     seen_text = set()
@@ -895,12 +1043,14 @@ def run_property(ctx, prop, scenarios=None, tier=None, procs=8):
     n_items = sum(len(r.items) for r in runs.values())
     distinct = len(set(tuple(" ".join(f) for _, f in r.items) for r in runs.values()))
     tie.update({
-        "schedules_executed_on_real_code": len(runs), "corpus": len(corpus), "items": n_items, "distinct_schedules": distinct,
+        "schedules_executed_on_real_code": len(runs), "comparison_runs": n_compare, "exhibit_runs": len(xruns),
+        "corpus": len(corpus), "items": n_items, "distinct_schedules": distinct,
         "scenarios": len(scs), "scenario_stats": gstats, "labels_reached": {k: reached.get(k, 0) for k in sorted(reached)},
         "model_labels_never_reached": [l for l in MODEL_LABELS if not reached.get(l)],
         "preemption_bound": max([g["bound"] for g in gstats.values()] + [0]),
         "mismatches_in_projection": len(j["mismatches"]), "schedules_differing_in_labels_only": j["label_only"], "projection": sorted(PROJ.get(prop, [])), "schedules_failing_oracle": len(set(v[0] for v in j["violations"])),
         "known_finding_reproductions": len(j["known"]), "hangs_or_fatal": len(failures), "yield_points_placed": len(ins["placed"]),
+        "gc_pass_label_differences": sum(1 for c_ in chk.values() if any(d[2] == str(GC_TID0) or (d[2].isdigit() and int(d[2]) >= GC_TID0) for d in c_.get("diffs", []))),
         "yield_points_missing": [m["id"] for m in missing], "sentinels_placed": ins["sentinels"], "oracle": prop,
         "incomplete_schedules": sum(1 for r in runs.values() if not r.complete), "schedules_abandoned_after_repeated_hangs": e.get("abandoned", 0), "wall_s": round(time.time() - t0, 1)})
     ctx.coverage["traces_validated_against_impl"] = ctx.coverage.get("traces_validated_against_impl", 0) + len(runs)
@@ -909,7 +1059,7 @@ def run_property(ctx, prop, scenarios=None, tier=None, procs=8):
     tie["rule"] = ("schedules = complete runs of the extracted model Mlk over the scenario's calls, enumerated by DFS over the model's enabled items with "
                    "the preemption bound (all of them, or a reservoir sample drawn from one PRNG seeded by ctx.seed); each is executed item by item "
                    "on the real lock.Manager inside a synctest bubble (one critical section per item) and compared after every item; distinct = "
-                   "different item sequences")
+                   "different item sequences; exhibit runs (counted separately under 'exhibit') add asynchronous items at window yield points")
     for a_ in T2_ASSUMPTIONS:
         if a_ not in ctx.assumptions:
             ctx.assumptions.append(a_)
@@ -917,6 +1067,35 @@ def run_property(ctx, prop, scenarios=None, tier=None, procs=8):
         sid = sorted(runs)[0]
         ctx.coverage["samples"].append({"schedule": sid, "observed_head": runs[sid].raw[:30]})
     return dict(ok_build=True, runs=runs, chk=chk, judged=j, failures=failures, stats=gstats, reached=reached, instr=ins)
+
+
+def replay(ctx, prop, path):
+    """bin/check Cxx --replay <t2 replay file>: executes the schedule again on the tree under test (exhibit schedules with the
+    windows parking) and records a violation when the property's oracle still fails on the real trace."""
+    c = json.loads(Path(path).read_text())
+    b = build(ctx)
+    if not b["ok"]:
+        ctx.violation({"broken": "build", "stage": b["why"], "log": b["log"]}, "the tree under test does not build", name="t2_build_failure.json",
+                      no_failing_input=True)
+        return
+    c.setdefault("id", "replay")
+    cf = b["work"] / "replay.txt"
+    cf.write_text(corpus_text(c))
+    e = execute(ctx, b, cf, "replay", procs=1, xpark=bool(c.get("exhibit", True)))
+    j = judge(prop, e["runs"], e["chk"], e["failures"], compare=True)
+    for r in e["runs"].values():
+        print("\n".join(r.raw))
+    for sid, idx, text in j["violations"][:3]:
+        ctx.violation(_replay_obj(prop, e["runs"][sid], text, e["chk"].get(sid), {"violation_at": idx}),
+                      "replayed: real trace violates %s at event %d: %s" % (prop, idx, text[:300]), name="t2_replayed_%d.json" % idx)
+    for sid, text in j["known"][:1]:
+        ctx.known_finding("F-LIN2", "replayed: " + text[:200])
+    if not j["violations"] and j["mismatches"]:
+        sid, k, kind, text = j["mismatches"][0]
+        ctx.violation({"schedule": sid, "first_difference": {"item": k, "kind": kind, "text": text}},
+                      "replayed: model and implementation disagree at item %d (%s): %s" % (k, kind, text[:200]), name="t2_replayed_mismatch.json",
+                      no_failing_input=True)
+    ctx.coverage["ties"]["T2-sched"] = {"replayed": path, "schedules_executed_on_real_code": len(e["runs"])}
 
 
 # ------------------------------------------------------------------------------------------------------------- smoke
@@ -944,7 +1123,7 @@ def main(argv=None):
         cf = b["work"] / "replay.txt"
         c.setdefault("id", "replay")
         cf.write_text(corpus_text(c))
-        e = execute(ctx, b, cf, "replay", procs=1)
+        e = execute(ctx, b, cf, "replay", procs=1, xpark=bool(c.get("exhibit", True)))
         for p in props:
             j = judge(p, e["runs"], e["chk"], e["failures"])
             print(p, json.dumps(j, indent=1))
@@ -960,6 +1139,10 @@ def main(argv=None):
             break
         tie = ctx.coverage["ties"]["T2-sched"]
         total += tie["schedules_executed_on_real_code"]
+        x_ = tie.get("exhibit", {})
+        print("%s: exhibit runs %d (inserted %s; gc-overrun variants %d; failing oracle %d; mismatches %d; %.1fs)"
+              % (p, x_.get("runs", 0), x_.get("inserted_by_window_and_kind"), x_.get("gc_overrun_variants", 0), x_.get("schedules_failing_oracle", 0),
+                 x_.get("mismatches_in_projection", 0), x_.get("wall_s", 0)))
         print("%s: %d schedules (%d items, %d distinct) in %.1fs; mismatches %d, oracle failures %d, F-LIN2 reproductions %d, hangs/fatal %d; labels never reached: %s; missing hooks: %s; sentinels: %s"
               % (p, tie["schedules_executed_on_real_code"], tie["items"], tie["distinct_schedules"], tie["wall_s"], tie["mismatches_in_projection"],
                  tie["schedules_failing_oracle"], tie["known_finding_reproductions"], tie["hangs_or_fatal"], tie["model_labels_never_reached"],
